@@ -259,3 +259,844 @@ Proof.
     + exists [], (f :: rest), st. change (scan_len []) with 0. rewrite !N.add_0_r.
       repeat split; try reflexivity; try lia. intro C; congruence.
 Qed.
+
+(* the address the scan shows at logical position o, seen from a suffix of the fragment list that
+   starts at logical position fo *)
+Definition spec_addr (frs : list frag) (fo o : N) : N := nth (N.to_nat (o - fo)) (scan frs) TOMBSTONE_ROW.
+
+Lemma spec_addr_skip (sk frs' : list frag) (fo o : N) : fo + scan_len sk <= o ->
+  spec_addr (sk ++ frs') fo o = spec_addr frs' (fo + scan_len sk) o.
+Proof.
+  intro H. unfold spec_addr, scan_len in *. rewrite scan_app, app_nth2 by lia. f_equal. lia.
+Qed.
+
+Lemma scan_len_app (l1 l2 : list frag) : scan_len (l1 ++ l2) = scan_len l1 + scan_len l2.
+Proof. unfold scan_len. rewrite scan_app, app_length. lia. Qed.
+
+Lemma live_below_nil (p : N) : live_below [] p = p.
+Proof. pose proof (live_plus_card [] p (NoDup_nil N)) as E. change (dv_card_below [] p) with 0 in E. lia. Qed.
+
+Lemma nth_nil {A} (n : nat) (d : A) : nth n [] d = d.
+Proof. destruct n; reflexivity. Qed.
+
+Lemma walk_spec : forall (sorted : list N) (frs : list frag) (fo : N) (st : om_state) (lo : N),
+  Forall frag_wfP frs -> fo + scan_len frs < two64 ->
+  StronglySorted N.le (lo :: sorted) -> fo <= lo -> head_inv frs st (lo - fo) ->
+  walk_offsets frs fo st sorted = Ok (map (spec_addr frs fo) sorted).
+Proof.
+  induction sorted as [|so more IH]; intros frs fo st lo Hwf Hov Hs Hfo Hinv; [reflexivity|].
+  inversion Hs as [|? ? Hs' Hall]; subst. inversion Hall as [|? ? Hlo _]; subst.
+  destruct (skip_frags_spec frs fo st so Hwf ltac:(lia) Hov) as [sk [frs' [st' [E [Hsplit [Hle [Hsame [Hnew Hhead]]]]]]]].
+  cbn [walk_offsets]. rewrite E. subst frs.
+  rewrite (map_ext_in (spec_addr (sk ++ frs') fo) (spec_addr frs' (fo + scan_len sk))).
+  2:{ intros o Ho. apply spec_addr_skip. destruct Ho as [<-|Ho]; [exact Hle|].
+      inversion Hs' as [|? ? _ Hall']; subst. rewrite Forall_forall in Hall'. specialize (Hall' o Ho). lia. }
+  apply Forall_app in Hwf. destruct Hwf as [Hwf_sk Hwf'].
+  rewrite scan_len_app in Hov.
+  set (fo' := fo + scan_len sk) in *.
+  destruct frs' as [|f rest'].
+  - assert (walk_offsets [] fo' st' more = Ok (map (spec_addr [] fo') more)) as R.
+    { apply (IH [] fo' st' so); [constructor | change (scan_len []) with 0; lia | exact Hs' | lia | exact I]. }
+    rewrite R. cbn [map]. unfold spec_addr at 2. cbn [scan flat_map]. rewrite nth_nil. reflexivity.
+  - inversion Hwf' as [|? ? W _]; subst.
+    destruct (live_below_phys f W) as [Hlive Hdle]. pose proof (wf_phys f W) as Hphys.
+    destruct (N.ltb_spec so fo'); [lia|].
+    assert (so - fo' < f_rows f) as Hlocal by lia.
+    rewrite wrap32_small by (unfold f_rows in *; lia).
+    (* the address of the head element *)
+    assert (forall a, is_nth_live (f_dv f) (so - fo') a -> spec_addr (f :: rest') fo' so = mk_addr (f_id f) a) as Hhd.
+    { intros a Hans. unfold spec_addr. rewrite scan_cons, app_nth1.
+      - apply (frag_scan_nth f (so - fo') a W Hans Hlocal).
+      - pose proof (frag_scan_length f W). lia. }
+    destruct (f_del f) as [D|] eqn:Edel.
+    + assert (f_dv f = D) as EDv by (unfold f_dv; rewrite Edel; reflexivity).
+      pose proof (wf_nodup f W) as ND. rewrite EDv in ND.
+      assert (exists lo', om_inv D st' lo' /\ lo' <= so - fo') as [lo' [Hinv' Hlo']].
+      { destruct sk as [|s sk'].
+        - rewrite (Hsame eq_refl). exists (lo - fo). unfold head_inv in Hinv. cbn [app] in Hinv. rewrite Edel in Hinv.
+          split; [exact Hinv|]. unfold fo'. change (scan_len []) with 0. lia.
+        - rewrite (Hnew ltac:(discriminate)). exists 0. split; [apply om_inv_new; exact ND | lia]. }
+      destruct (map_offset_correct D st' lo' (so - fo') MAP_FUEL ND Hinv' Hlo') as [a [st'' [E2 [Hans Hinv'']]]].
+      { rewrite <- EDv. unfold f_rows in Hlocal. lia. }
+      { unfold MAP_FUEL. lia. }
+      unfold map_offset. rewrite E2.
+      assert (walk_offsets (f :: rest') fo' st'' more = Ok (map (spec_addr (f :: rest') fo') more)) as R.
+      { apply (IH (f :: rest') fo' st'' so); [exact Hwf' | lia | exact Hs' | lia |].
+        unfold head_inv. rewrite Edel. exact Hinv''. }
+      rewrite R. cbn [map]. rewrite (Hhd a); [reflexivity | rewrite EDv; exact Hans].
+    + assert (f_dv f = []) as EDv by (unfold f_dv; rewrite Edel; reflexivity).
+      assert (walk_offsets (f :: rest') fo' st' more = Ok (map (spec_addr (f :: rest') fo') more)) as R.
+      { apply (IH (f :: rest') fo' st' so); [exact Hwf' | lia | exact Hs' | lia |].
+        unfold head_inv. rewrite Edel. exact I. }
+      rewrite R. cbn [map]. rewrite (Hhd (so - fo')); [reflexivity|]. rewrite EDv. split; [reflexivity | apply live_below_nil].
+Qed.
+
+(* every fragment list, every offset list (unsorted, duplicates, out of range): the address vector is,
+   position by position, the address a scan shows at that offset; tombstone past the end *)
+Theorem row_offsets_to_row_addresses_correct (frs : list frag) (offs : list N) :
+  Forall frag_wfP frs -> scan_len frs < two64 ->
+  row_offsets_to_row_addresses frs offs = Ok (map (fun o => nth (N.to_nat o) (scan frs) TOMBSTONE_ROW) offs).
+Proof.
+  intros Hwf Hov. unfold row_offsets_to_row_addresses.
+  rewrite (walk_spec (map snd (sort_by snd (enumerate_from 0 offs))) frs 0 om_new 0 Hwf).
+  - rewrite (unsort_correct (spec_addr frs 0) offs). f_equal. apply map_ext. intro o.
+    unfold spec_addr. rewrite N.sub_0_r. reflexivity.
+  - lia.
+  - constructor.
+    + apply StronglySorted_map_le. apply sort_by_sorted.
+    + apply Forall_forall. intros x _. lia.
+  - lia.
+  - unfold head_inv. destruct frs as [|f rest]; [exact I|]. destruct (f_del f) as [D|] eqn:Edel; [|exact I].
+    inversion Hwf as [|? ? W _]; subst. apply om_inv_new. pose proof (wf_nodup f W) as ND.
+    unfold f_dv in ND. rewrite Edel in ND. exact ND.
+Qed.
+
+(* ================= C. do_take_rows ================= *)
+(* ---- row address arithmetic ---- *)
+Definition join (fid off : N) : N := N.lor (N.shiftl fid 32) off.
+
+Lemma two32_pow : two32 = 2 ^ 32.
+Proof. reflexivity. Qed.
+
+Lemma join_split (a : N) : join (addr_frag a) (addr_off a) = a.
+Proof.
+  unfold join, addr_frag, addr_off, wrap32. rewrite two32_pow. apply N.bits_inj. intro n.
+  rewrite N.lor_spec. destruct (N.lt_ge_cases n 32) as [H|H].
+  - rewrite N.shiftl_spec_low by exact H. rewrite N.mod_pow2_bits_low by exact H. reflexivity.
+  - rewrite N.shiftl_spec_high' by exact H. rewrite N.shiftr_spec'.
+    rewrite N.mod_pow2_bits_high by exact H. rewrite orb_false_r. f_equal. lia.
+Qed.
+
+Lemma testbit_small_high (x n : N) : x < 2 ^ 32 -> 32 <= n -> N.testbit x n = false.
+Proof. intros Hx Hn. rewrite <- (N.mod_small x (2 ^ 32) Hx). apply N.mod_pow2_bits_high. exact Hn. Qed.
+
+Lemma addr_frag_join (fid off : N) : off < two32 -> addr_frag (join fid off) = fid.
+Proof.
+  rewrite two32_pow. intro Ho. unfold addr_frag, join. apply N.bits_inj. intro n.
+  rewrite N.shiftr_spec', N.lor_spec, N.shiftl_spec_high' by lia.
+  rewrite (testbit_small_high off (n + 32) Ho) by lia. rewrite orb_false_r. f_equal. lia.
+Qed.
+
+Lemma addr_off_join (fid off : N) : off < two32 -> addr_off (join fid off) = off.
+Proof.
+  rewrite two32_pow. intro Ho. unfold addr_off, wrap32, join. rewrite two32_pow. apply N.bits_inj. intro n.
+  destruct (N.lt_ge_cases n 32) as [H|H].
+  - rewrite N.mod_pow2_bits_low by exact H. rewrite N.lor_spec, N.shiftl_spec_low by exact H. reflexivity.
+  - rewrite N.mod_pow2_bits_high by exact H. symmetry. apply testbit_small_high; assumption.
+Qed.
+
+Lemma mk_addr_join (fid off : N) : fid < two32 -> mk_addr fid off = join fid off.
+Proof. intro H. unfold mk_addr, join. rewrite wrap32_small by exact H. reflexivity. Qed.
+
+Lemma addr_frag_div (a : N) : addr_frag a = a / two32.
+Proof. unfold addr_frag. rewrite N.shiftr_div_pow2. reflexivity. Qed.
+
+Lemma addr_off_succ (a : N) : addr_frag (a + 1) = addr_frag a -> addr_off (a + 1) = addr_off a + 1.
+Proof.
+  rewrite !addr_frag_div. unfold addr_off, wrap32. rewrite two32_val. intro H.
+  pose proof (N.div_mod a 4294967296 ltac:(lia)). pose proof (N.div_mod (a + 1) 4294967296 ltac:(lia)).
+  pose proof (N.mod_lt a 4294967296 ltac:(lia)). pose proof (N.mod_lt (a + 1) 4294967296 ltac:(lia)).
+  rewrite H in *. lia.
+Qed.
+
+Lemma addr_off_lt (a : N) : addr_off a < two32.
+Proof. unfold addr_off, wrap32. apply N.mod_lt. rewrite two32_val. lia. Qed.
+
+(* ---- lists of consecutive numbers ---- *)
+Lemma N_span_cons (lo hi : N) : lo < hi -> N_span lo hi = lo :: N_span (lo + 1) hi.
+Proof.
+  intro H. unfold N_span, N_range.
+  replace (N.to_nat (hi - lo)) with (S (N.to_nat (hi - (lo + 1)))) by lia.
+  cbn [seq map]. f_equal; [lia|]. rewrite <- seq_shift, !map_map. apply map_ext. intro k. cbv beta.
+  rewrite Nat2N.inj_succ. lia.
+Qed.
+
+Lemma N_span_nil (lo hi : N) : hi <= lo -> N_span lo hi = [].
+Proof. intro H. unfold N_span, N_range. replace (hi - lo) with 0 by lia. reflexivity. Qed.
+
+Lemma in_N_span (lo hi x : N) : In x (N_span lo hi) <-> lo <= x /\ x < hi.
+Proof.
+  unfold N_span. rewrite in_map_iff. split.
+  - intros [k [Hk Hin]]. apply in_N_range in Hin. lia.
+  - intros [H1 H2]. exists (x - lo). split; [lia|]. apply in_N_range. lia.
+Qed.
+
+Fixpoint consec (last : N) (l : list N) : Prop :=
+  match l with [] => True | x :: xs => x = last + 1 /\ consec x xs end.
+
+Lemma contiguous_from_consec (l : list N) : forall lst, contiguous_from lst l = true -> consec lst l.
+Proof.
+  induction l as [|x xs IH]; intros lst H; [exact I|]. cbn [contiguous_from] in H.
+  apply andb_true_iff in H. destruct H as [H1 H2]. apply N.eqb_eq in H1. split; [exact H1 | apply IH; exact H2].
+Qed.
+
+Lemma consec_span (l : list N) : forall x, consec x l ->
+  x :: l = N_span x (x + 1 + N.of_nat (length l)) /\ last (x :: l) 0 = x + N.of_nat (length l).
+Proof.
+  induction l as [|y ys IH]; intros x H.
+  - cbn [length N.of_nat]. rewrite N.add_0_r. rewrite N_span_cons by lia. rewrite N_span_nil by lia.
+    split; [reflexivity | cbn; lia].
+  - destruct H as [-> H]. destruct (IH (x + 1) H) as [E1 E2]. split.
+    + rewrite N_span_cons by lia. f_equal. etransitivity; [exact E1|]. f_equal. cbn [length].
+      rewrite Nat2N.inj_succ. lia.
+    + change (last (x :: (x + 1) :: ys) 0) with (last ((x + 1) :: ys) 0). rewrite E2. cbn [length].
+      rewrite Nat2N.inj_succ. lia.
+Qed.
+
+(* ---- fragment reads in closed form ---- *)
+Definition in_phys (f : frag) (o : N) : bool := o <? f_phys f.
+Definition take_in_frag (f : frag) (offs : list N) : outcome (list N) :=
+  if forallb (in_phys f) offs then Ok (filter (f_live f) offs) else Err.
+
+Lemma forallb_in_phys_span (f : frag) (lo hi : N) : lo < hi ->
+  forallb (in_phys f) (N_span lo hi) = (hi <=? f_phys f).
+Proof.
+  intro H. destruct (N.leb_spec hi (f_phys f)) as [Hle|Hgt].
+  - apply forallb_forall. intros x Hx. apply in_N_span in Hx. unfold in_phys. apply N.ltb_lt. lia.
+  - apply not_true_is_false. intro C. rewrite forallb_forall in C.
+    specialize (C (hi - 1)). unfold in_phys in C. rewrite N.ltb_lt in C.
+    assert (In (hi - 1) (N_span lo hi)) as Hin by (apply in_N_span; lia). specialize (C Hin). lia.
+Qed.
+
+Lemma frag_read_range_eq (f : frag) (lo hi : N) : lo < hi ->
+  frag_read_range f lo hi = take_in_frag f (N_span lo hi).
+Proof.
+  intro H. unfold frag_read_range, take_in_frag. rewrite (forallb_in_phys_span f lo hi H).
+  destruct (N.ltb_spec (f_phys f) hi); destruct (N.leb_spec hi (f_phys f)); try lia; reflexivity.
+Qed.
+
+Lemma forallb_negb_existsb {A} (p : A -> bool) (l : list A) : forallb p l = negb (existsb (fun x => negb (p x)) l).
+Proof. induction l as [|x xs IH]; [reflexivity|]. cbn [forallb existsb]. rewrite IH. destruct (p x); reflexivity. Qed.
+
+Lemma existsb_ext {A} (p q : A -> bool) (l : list A) : (forall x, p x = q x) -> existsb p l = existsb q l.
+Proof. intro H. induction l as [|x xs IH]; [reflexivity|]. cbn [existsb]. rewrite H, IH. reflexivity. Qed.
+
+Lemma frag_take_rows_eq (f : frag) (offs : list N) : frag_take_rows f offs = take_in_frag f offs.
+Proof.
+  unfold frag_take_rows.
+  destruct ((1 <? N.of_nat (length offs)) && row_ids_contiguous offs) eqn:C.
+  - apply andb_true_iff in C. destruct C as [_ C]. destruct offs as [|x l]; [discriminate C|].
+    cbn [row_ids_contiguous] in C. apply contiguous_from_consec in C.
+    destruct (consec_span l x C) as [E1 E2]. cbn [hd]. rewrite E2.
+    rewrite frag_read_range_eq by lia. f_equal. symmetry. etransitivity; [exact E1|]. f_equal. lia.
+  - unfold take_in_frag. rewrite forallb_negb_existsb.
+    assert (existsb (fun o => f_phys f <=? o) offs = existsb (fun x => negb (in_phys f x)) offs) as ->.
+    { apply existsb_ext. intro x. unfold in_phys. destruct (N.leb_spec (f_phys f) x); destruct (N.ltb_spec x (f_phys f)); try lia; reflexivity. }
+    destruct (existsb (fun x => negb (in_phys f x)) offs); reflexivity.
+Qed.
+
+(* ---- the closed form of a take by address ---- *)
+Definition take_spec (frs : list frag) (addrs : list N) : outcome (list N) :=
+  if forallb (addr_in_bounds frs) addrs then Ok (filter (addr_live frs) addrs) else Err.
+
+Definition ids_nodup (frs : list frag) : Prop := NoDup (map f_id frs).
+
+Lemma find_frag_some (frs : list frag) (id : N) (f : frag) : find_frag frs id = Some f -> In f frs /\ f_id f = id.
+Proof.
+  unfold find_frag. intro H. apply find_some in H. destruct H as [H1 H2]. apply N.eqb_eq in H2. split; assumption.
+Qed.
+
+Section TakeSpec.
+  Variable frs : list frag.
+  Hypothesis Hwf : Forall frag_wfP frs.
+
+  Lemma found_wf (id : N) (f : frag) : find_frag frs id = Some f -> frag_wfP f /\ f_id f = id.
+  Proof.
+    intro H. apply find_frag_some in H. destruct H as [Hin Hid]. split; [|exact Hid].
+    rewrite Forall_forall in Hwf. apply Hwf. exact Hin.
+  Qed.
+
+  Lemma found_addr (a : N) (f : frag) : find_frag frs (addr_frag a) = Some f -> mk_addr (f_id f) (addr_off a) = a.
+  Proof.
+    intro H. destruct (found_wf _ _ H) as [W Hid]. rewrite mk_addr_join by (pose proof (wf_id f W); lia).
+    rewrite Hid. apply join_split.
+  Qed.
+
+  Lemma take_spec_cons_none (a : N) (rest : list N) :
+    find_frag frs (addr_frag a) = None -> take_spec frs (a :: rest) = Err.
+  Proof. intro H. unfold take_spec. cbn [forallb]. unfold addr_in_bounds at 1. rewrite H. reflexivity. Qed.
+
+  Lemma take_spec_cons_some (a : N) (rest : list N) (f : frag) :
+    find_frag frs (addr_frag a) = Some f ->
+    take_spec frs (a :: rest) =
+      if in_phys f (addr_off a) then
+        match take_spec frs rest with
+        | Ok r => Ok ((if f_live f (addr_off a) then [a] else []) ++ r)
+        | Err => Err
+        | Panic => Panic
+        end
+      else Err.
+  Proof.
+    intro H. unfold take_spec. cbn [forallb filter]. unfold addr_in_bounds at 1, addr_live at 1. rewrite H.
+    unfold in_phys. destruct (addr_off a <? f_phys f); cbn [andb]; [|reflexivity].
+    destruct (forallb (addr_in_bounds frs) rest); [|reflexivity].
+    destruct (f_live f (addr_off a)); reflexivity.
+  Qed.
+
+  Lemma take_spec_not_panic (addrs : list N) : take_spec frs addrs <> Panic.
+  Proof. unfold take_spec. destruct (forallb (addr_in_bounds frs) addrs); discriminate. Qed.
+
+  Lemma take_groups_cons (fid : N) (offs : list N) (more : list (N * list N)) :
+    take_groups frs ((fid, offs) :: more) =
+      match find_frag frs fid with
+      | None => Err
+      | Some f =>
+        match take_in_frag f offs with
+        | Ok rows => match take_groups frs more with
+                     | Ok r => Ok (map (mk_addr (f_id f)) rows ++ r) | Err => Err | Panic => Panic end
+        | Err => Err
+        | Panic => Panic
+        end
+      end.
+  Proof. cbn [take_groups]. destruct (find_frag frs fid) as [f|]; [|reflexivity]. rewrite frag_take_rows_eq. reflexivity. Qed.
+
+  Lemma take_in_frag_cons (f : frag) (o : N) (offs : list N) :
+    take_in_frag f (o :: offs) =
+      if in_phys f o then
+        match take_in_frag f offs with
+        | Ok rows => Ok ((if f_live f o then [o] else []) ++ rows) | Err => Err | Panic => Panic end
+      else Err.
+  Proof.
+    unfold take_in_frag. cbn [forallb filter]. destruct (in_phys f o); cbn [andb]; [|reflexivity].
+    destruct (forallb (in_phys f) offs); [|reflexivity]. destruct (f_live f o); reflexivity.
+  Qed.
+
+  Lemma group_runs_nil (l : list N) : group_runs l = [] -> l = [].
+  Proof.
+    destruct l as [|a rest]; [reflexivity|]. cbn [group_runs].
+    destruct (group_runs rest) as [|[fid offs] gs]; [discriminate|]. destruct (addr_frag a =? fid); discriminate.
+  Qed.
+
+  (* the sorted path (and, in fact, any grouping into runs) *)
+  Lemma take_groups_eq (addrs : list N) : take_groups frs (group_runs addrs) = take_spec frs addrs.
+  Proof.
+    induction addrs as [|a rest IH]; [reflexivity|]. cbn [group_runs].
+    destruct (group_runs rest) as [|[fid offs] gs] eqn:G.
+    - apply group_runs_nil in G. subst rest. rewrite take_groups_cons.
+      destruct (find_frag frs (addr_frag a)) as [f|] eqn:F; [|rewrite take_spec_cons_none by exact F; reflexivity].
+      rewrite (take_spec_cons_some a [] f F), take_in_frag_cons.
+      destruct (in_phys f (addr_off a)); [|reflexivity].
+      cbn. rewrite !app_nil_r. destruct (f_live f (addr_off a)); cbn [map]; [rewrite (found_addr a f F)|]; reflexivity.
+    - destruct (N.eqb_spec (addr_frag a) fid) as [Efid|Nfid].
+      + subst fid. rewrite take_groups_cons. rewrite take_groups_cons in IH.
+        destruct (find_frag frs (addr_frag a)) as [f|] eqn:F; [|rewrite take_spec_cons_none by exact F; reflexivity].
+        rewrite (take_spec_cons_some a rest f F), take_in_frag_cons.
+        destruct (in_phys f (addr_off a)); [|reflexivity].
+        rewrite <- IH.
+        destruct (take_in_frag f offs) as [rows| |]; try reflexivity.
+        destruct (take_groups frs gs) as [r| |]; try reflexivity.
+        rewrite map_app, <- app_assoc. f_equal. f_equal.
+        destruct (f_live f (addr_off a)); cbn [map]; [rewrite (found_addr a f F)|]; reflexivity.
+      + rewrite take_groups_cons, IH.
+        destruct (find_frag frs (addr_frag a)) as [f|] eqn:F; [|rewrite take_spec_cons_none by exact F; reflexivity].
+        rewrite (take_spec_cons_some a rest f F), take_in_frag_cons.
+        destruct (in_phys f (addr_off a)); [|reflexivity].
+        cbn [take_in_frag forallb filter]. unfold take_in_frag. cbn [forallb filter]. rewrite app_nil_r.
+        destruct (take_spec frs rest) as [r| |]; try reflexivity.
+        destruct (f_live f (addr_off a)); cbn [map]; [rewrite (found_addr a f F)|]; reflexivity.
+  Qed.
+
+  Lemma group_runs_single (fid : N) (addrs : list N) :
+    addrs <> [] -> Forall (fun a => addr_frag a = fid) addrs -> group_runs addrs = [(fid, map addr_off addrs)].
+  Proof.
+    induction addrs as [|a rest IH]; intros Hne Hall; [congruence|].
+    inversion Hall as [|? ? Ha Hrest]; subst. cbn [group_runs map].
+    destruct rest as [|b rest']; [reflexivity|].
+    rewrite IH by (congruence || exact Hrest). rewrite N.eqb_refl. reflexivity.
+  Qed.
+
+  (* check_row_addrs says "contiguous": consecutive addresses within one fragment *)
+  Lemma check_loop_contiguous : forall (rest : list N) (lst ff : N) (s c s' : bool),
+    check_row_addrs_loop lst ff rest s c = Ok (s', true) ->
+    c = true /\ consec lst rest /\ Forall (fun a => addr_frag a = ff) rest.
+  Proof.
+    induction rest as [|a more IH]; intros lst ff s c s' H; cbn [check_row_addrs_loop] in H.
+    - inversion H; subst. repeat split; constructor.
+    - destruct (two64 <=? lst + 1); [discriminate H|].
+      apply IH in H. destruct H as [Hc [Hcons Hall]].
+      apply andb_true_iff in Hc. destruct Hc as [Hc Hf]. apply andb_true_iff in Hc. destruct Hc as [Hc He].
+      apply N.eqb_eq in He. apply N.eqb_eq in Hf. repeat split; try assumption. constructor; assumption.
+  Qed.
+
+  Lemma consec_offs : forall (rest : list N) (lst : N),
+    consec lst rest -> Forall (fun a => addr_frag a = addr_frag lst) rest ->
+    consec (addr_off lst) (map addr_off rest).
+  Proof.
+    induction rest as [|a more IH]; intros lst Hc Hall; [exact I|].
+    destruct Hc as [-> Hc]. inversion Hall as [|? ? Ha Hmore]; subst. cbn [map consec]. split.
+    - apply addr_off_succ. exact Ha.
+    - apply IH; [exact Hc|]. rewrite Ha. exact Hmore.
+  Qed.
+
+  Lemma last_map {A B} (g : A -> B) (l : list A) (d : A) : l <> [] -> last (map g l) (g d) = g (last l d).
+  Proof.
+    induction l as [|x xs IH]; intro H; [congruence|]. destruct xs as [|y ys]; [reflexivity|].
+    change (last (map g (x :: y :: ys)) (g d)) with (last (map g (y :: ys)) (g d)).
+    change (last (x :: y :: ys) d) with (last (y :: ys) d). apply IH. discriminate.
+  Qed.
+
+  Lemma contiguous_path_eq (start : N) (rest : list N) (s : bool) :
+    check_row_addrs (start :: rest) = Ok (s, true) ->
+    match find_frag frs (addr_frag start) with
+    | None => Err
+    | Some f => outcome_map (map (mk_addr (f_id f)))
+                  (frag_read_range f (addr_off start) (addr_off (last (start :: rest) 0) + 1))
+    end = take_spec frs (start :: rest).
+  Proof.
+    intro H. cbn [check_row_addrs] in H. apply check_loop_contiguous in H. destruct H as [_ [Hc Hall]].
+    rewrite <- take_groups_eq.
+    rewrite (group_runs_single (addr_frag start) (start :: rest)); [|discriminate | constructor; [reflexivity | exact Hall]].
+    rewrite take_groups_cons.
+    destruct (find_frag frs (addr_frag start)) as [f|]; [|reflexivity].
+    pose proof (consec_offs rest start Hc Hall) as Ho.
+    destruct (consec_span (map addr_off rest) (addr_off start) Ho) as [E1 E2].
+    assert (addr_off (last (start :: rest) 0) = last (map addr_off (start :: rest)) 0) as ->.
+    { change 0 with (addr_off 0) at 2. symmetry. apply last_map. discriminate. }
+    cbn [map]. rewrite E2. rewrite frag_read_range_eq by lia.
+    replace (addr_off start + N.of_nat (length (map addr_off rest)) + 1)
+      with (addr_off start + 1 + N.of_nat (length (map addr_off rest))) by lia.
+    rewrite <- E1. cbn [take_groups].
+    destruct (take_in_frag f (addr_off start :: map addr_off rest)); cbn [outcome_map]; try reflexivity.
+    rewrite app_nil_r. reflexivity.
+  Qed.
+End TakeSpec.
+
+(* ---- generic list facts for the re-mapping path ---- *)
+Lemma NoDup_app_intro {A} (l1 l2 : list A) :
+  NoDup l1 -> NoDup l2 -> (forall x, In x l1 -> ~ In x l2) -> NoDup (l1 ++ l2).
+Proof.
+  induction l1 as [|a l1 IH]; intros N1 N2 H; cbn [app]; [exact N2|].
+  inversion N1 as [|? ? Hna N1']; subst. constructor.
+  - intro C. apply in_app_or in C. destruct C as [C|C]; [contradiction|]. apply (H a); [left; reflexivity | exact C].
+  - apply IH; [exact N1' | exact N2|]. intros x Hx. apply H. right. exact Hx.
+Qed.
+
+Lemma NoDup_map_inj_in {A B} (g : A -> B) (l : list A) :
+  (forall x y, In x l -> In y l -> g x = g y -> x = y) -> NoDup l -> NoDup (map g l).
+Proof.
+  induction l as [|a l IH]; intros Hinj ND; cbn [map]; [constructor|].
+  inversion ND as [|? ? Hna ND']; subst. constructor.
+  - intro C. apply in_map_iff in C. destruct C as [y [E Hy]].
+    assert (y = a) by (apply Hinj; [right; exact Hy | left; reflexivity | exact E]). subst. contradiction.
+  - apply IH; [|exact ND']. intros x y Hx Hy. apply Hinj; right; assumption.
+Qed.
+
+Lemma StronglySorted_lt_NoDup (l : list N) : StronglySorted N.lt l -> NoDup l.
+Proof.
+  induction 1 as [|x xs Hs IH Hall]; constructor; [|exact IH].
+  intro C. rewrite Forall_forall in Hall. specialize (Hall x C). lia.
+Qed.
+
+Lemma dedup_adj_cons2 (x y : N) (ys : list N) :
+  dedup_adj (x :: y :: ys) = if x =? y then dedup_adj (y :: ys) else x :: dedup_adj (y :: ys).
+Proof. reflexivity. Qed.
+
+Lemma dedup_adj_in (l : list N) (z : N) : In z (dedup_adj l) <-> In z l.
+Proof.
+  induction l as [|x xs IH]; [tauto|]. destruct xs as [|y ys]; [cbn; tauto|].
+  rewrite dedup_adj_cons2. destruct (N.eqb_spec x y) as [->|Hne].
+  - rewrite IH. cbn [In]. tauto.
+  - cbn [In] in *. rewrite IH. tauto.
+Qed.
+
+Lemma dedup_adj_sorted (l : list N) : StronglySorted N.le l -> StronglySorted N.lt (dedup_adj l).
+Proof.
+  induction l as [|x xs IH]; intro Hs; [constructor|]. destruct xs as [|y ys]; [cbn; constructor; constructor|].
+  inversion Hs as [|? ? Hs' Hall]; subst. rewrite dedup_adj_cons2.
+  destruct (N.eqb_spec x y) as [->|Hne]; [apply IH; exact Hs'|].
+  constructor; [apply IH; exact Hs'|]. apply Forall_forall. intros z Hz. rewrite dedup_adj_in in Hz.
+  inversion Hall as [|? ? Hxy Hall']; subst. inversion Hs' as [|? ? _ Hy]; subst.
+  destruct Hz as [<-|Hz]; [lia|]. rewrite Forall_forall in Hy. specialize (Hy z Hz). lia.
+Qed.
+
+(* ---- group_runs ---- *)
+Definition ungroup (g : N * list N) : list N := map (join (fst g)) (snd g).
+
+Lemma group_runs_cons (a : N) (rest : list N) :
+  group_runs (a :: rest) =
+    match group_runs rest with
+    | (fid, offs) :: gs =>
+      if addr_frag a =? fid then (fid, addr_off a :: offs) :: gs
+      else (addr_frag a, [addr_off a]) :: (fid, offs) :: gs
+    | [] => [(addr_frag a, [addr_off a])]
+    end.
+Proof. reflexivity. Qed.
+
+Lemma group_runs_flat (l : list N) : flat_map ungroup (group_runs l) = l.
+Proof.
+  induction l as [|a rest IH]; [reflexivity|]. rewrite group_runs_cons.
+  destruct (group_runs rest) as [|[fid offs] gs].
+  - cbn in IH. subst rest. cbn. rewrite join_split. reflexivity.
+  - destruct (N.eqb_spec (addr_frag a) fid) as [<-|Hne].
+    + cbn [flat_map ungroup fst snd map app] in *. rewrite join_split, IH. reflexivity.
+    + cbn [flat_map] in *. rewrite IH. cbn. rewrite join_split. reflexivity.
+Qed.
+
+Lemma group_runs_offs_small (l : list N) : forall fid offs o,
+  In (fid, offs) (group_runs l) -> In o offs -> o < two32.
+Proof.
+  induction l as [|a rest IH]; intros fid offs o Hg Ho; [destruct Hg|]. rewrite group_runs_cons in Hg.
+  destruct (group_runs rest) as [|[fid' offs'] gs].
+  - destruct Hg as [E|[]]. inversion E; subst. destruct Ho as [<-|[]]. apply addr_off_lt.
+  - destruct (addr_frag a =? fid').
+    + destruct Hg as [E|Hg].
+      * inversion E; subst. destruct Ho as [<-|Ho]; [apply addr_off_lt|]. apply (IH fid offs' o); [left; reflexivity | exact Ho].
+      * apply (IH fid offs o); [right; exact Hg | exact Ho].
+    + destruct Hg as [E|Hg].
+      * inversion E; subst. destruct Ho as [<-|[]]. apply addr_off_lt.
+      * apply (IH fid offs o); [exact Hg | exact Ho].
+Qed.
+
+Lemma group_runs_in (l : list N) (fid : N) (offs : list N) (o : N) :
+  In (fid, offs) (group_runs l) -> In o offs -> In (join fid o) l.
+Proof.
+  intros Hg Ho. rewrite <- (group_runs_flat l). apply in_flat_map. exists (fid, offs). split; [exact Hg|].
+  unfold ungroup. cbn [fst snd]. apply in_map. exact Ho.
+Qed.
+
+Lemma group_runs_has (l : list N) (a : N) : In a l ->
+  exists offs, In (addr_frag a, offs) (group_runs l) /\ In (addr_off a) offs.
+Proof.
+  induction l as [|b rest IH]; intro Hin; [destruct Hin|]. rewrite group_runs_cons.
+  destruct Hin as [->|Hin].
+  - destruct (group_runs rest) as [|[fid offs] gs].
+    + exists [addr_off a]. split; left; reflexivity.
+    + destruct (N.eqb_spec (addr_frag a) fid) as [<-|Hne].
+      * exists (addr_off a :: offs). split; left; reflexivity.
+      * exists [addr_off a]. split; left; reflexivity.
+  - destruct (IH Hin) as [offs [Hg Ho]]. destruct (group_runs rest) as [|[fid offs'] gs]; [destruct Hg|].
+    destruct (N.eqb_spec (addr_frag b) fid) as [Eb|Hne].
+    + destruct Hg as [E|Hg].
+      * inversion E; subst. exists (addr_off b :: offs). split; [left; reflexivity | right; exact Ho].
+      * exists offs. split; [right; exact Hg | exact Ho].
+    + exists offs. split; [right; exact Hg | exact Ho].
+Qed.
+
+Lemma group_runs_head (b : N) (r : list N) : exists offs gs, group_runs (b :: r) = (addr_frag b, offs) :: gs.
+Proof.
+  rewrite group_runs_cons. destruct (group_runs r) as [|[fid offs] gs]; [eexists; eexists; reflexivity|].
+  destruct (N.eqb_spec (addr_frag b) fid) as [<-|Hne]; eexists; eexists; reflexivity.
+Qed.
+
+Lemma group_runs_keys_sorted (l : list N) :
+  StronglySorted N.le (map addr_frag l) -> StronglySorted N.lt (map fst (group_runs l)).
+Proof.
+  induction l as [|a rest IH]; intro Hs; [constructor|]. cbn [map] in Hs.
+  inversion Hs as [|? ? Hs' Hall]; subst. specialize (IH Hs'). rewrite group_runs_cons.
+  destruct rest as [|b r]; [cbn; constructor; constructor|].
+  destruct (group_runs_head b r) as [offs [gs E]]. rewrite E in *. cbn [map fst] in IH.
+  cbn [map] in Hall. inversion Hall as [|? ? Hab _]; subst.
+  destruct (N.eqb_spec (addr_frag a) (addr_frag b)) as [Eab|Nab]; cbn [map fst]; [exact IH|].
+  constructor; [exact IH|]. inversion IH as [|? ? _ Hk]; subst.
+  constructor; [lia|]. eapply Forall_impl; [|exact Hk]. intros k Hk'. cbv beta in Hk'. lia.
+Qed.
+
+Lemma addr_frag_mono (l : list N) : StronglySorted N.lt l -> StronglySorted N.le (map addr_frag l).
+Proof.
+  induction 1 as [|x xs Hs IH Hall]; cbn [map]; constructor; [exact IH|].
+  apply Forall_map. eapply Forall_impl; [|exact Hall]. intros y Hy. cbv beta in Hy.
+  rewrite !addr_frag_div. apply N.div_le_mono; [rewrite two32_val; lia | lia].
+Qed.
+
+(* ---- take_per_fragment ---- *)
+Lemma find_frag_nodup (frs : list frag) (f : frag) : NoDup (map f_id frs) -> In f frs -> find_frag frs (f_id f) = Some f.
+Proof.
+  unfold find_frag. induction frs as [|g frs IH]; intros ND Hin; [destruct Hin|]. cbn [find].
+  cbn [map] in ND. inversion ND as [|? ? Hna ND']; subst.
+  destruct Hin as [->|Hin]; [rewrite N.eqb_refl; reflexivity|].
+  destruct (N.eqb_spec (f_id g) (f_id f)) as [E|Hne]; [|apply IH; assumption].
+  exfalso. apply Hna. rewrite E. apply in_map. exact Hin.
+Qed.
+
+Section PerFragment.
+  Variable G : list (N * list N).
+  Definition grp (f : frag) : option (list N) := lookup_idx (wrap32 (f_id f)) G.
+
+  Lemma tpf_cons (f : frag) (more : list frag) :
+    take_per_fragment (f :: more) G =
+      match grp f with
+      | None => take_per_fragment more G
+      | Some offs =>
+        match take_in_frag f offs with
+        | Ok rows => match take_per_fragment more G with
+                     | Ok r => Ok (map (mk_addr (f_id f)) rows :: r) | Err => Err | Panic => Panic end
+        | Err => Err
+        | Panic => Panic
+        end
+      end.
+  Proof. cbn [take_per_fragment]. unfold grp. destruct (lookup_idx (wrap32 (f_id f)) G); [|reflexivity]. rewrite frag_take_rows_eq. reflexivity. Qed.
+
+  Lemma tpf_ok_in : forall (all : list frag) (batches : list (list N)),
+    take_per_fragment all G = Ok batches ->
+    forall x, In x (concat batches) <->
+      exists f offs o, In f all /\ grp f = Some offs /\ In o offs /\ f_live f o = true /\ x = mk_addr (f_id f) o.
+  Proof.
+    induction all as [|f more IH]; intros batches H x.
+    - cbn in H. inversion H; subst. cbn. split; [tauto|]. intros [f [offs [o [[] _]]]].
+    - rewrite tpf_cons in H. destruct (grp f) as [offs|] eqn:Eg.
+      + unfold take_in_frag in H. destruct (forallb (in_phys f) offs); [|discriminate H].
+        destruct (take_per_fragment more G) as [r| |] eqn:Er; try discriminate H. inversion H; subst.
+        cbn [concat]. rewrite in_app_iff, (IH r eq_refl x). split.
+        * intros [Hx|[g [offs' [o [Hg Hrest]]]]].
+          -- apply in_map_iff in Hx. destruct Hx as [o [Ex Ho]]. apply filter_In in Ho. destruct Ho as [Ho Hl].
+             exists f, offs, o. repeat split; try assumption; [left; reflexivity | symmetry; exact Ex].
+          -- exists g, offs', o. split; [right; exact Hg | exact Hrest].
+        * intros [g [offs' [o [[<-|Hg] [Hgrp [Ho [Hl Ex]]]]]]].
+          -- left. rewrite Eg in Hgrp. inversion Hgrp; subst. apply in_map. apply filter_In. split; assumption.
+          -- right. exists g, offs', o. repeat split; assumption.
+      + rewrite (IH batches H x). split.
+        * intros [g [offs' [o [Hg Hrest]]]]. exists g, offs', o. split; [right; exact Hg | exact Hrest].
+        * intros [g [offs' [o [[<-|Hg] [Hgrp Hrest]]]]]; [rewrite Eg in Hgrp; discriminate|].
+          exists g, offs', o. repeat split; try assumption; apply Hrest.
+  Qed.
+
+  Lemma tpf_ok_bounds : forall (all : list frag) (batches : list (list N)),
+    take_per_fragment all G = Ok batches ->
+    forall f offs, In f all -> grp f = Some offs -> forallb (in_phys f) offs = true.
+  Proof.
+    induction all as [|f more IH]; intros batches H g offs Hg Hgrp; [destruct Hg|].
+    rewrite tpf_cons in H. destruct (grp f) as [offs0|] eqn:Eg.
+    - unfold take_in_frag in H. destruct (forallb (in_phys f) offs0) eqn:Eb; [|discriminate H].
+      destruct (take_per_fragment more G) as [r| |] eqn:Er; try discriminate H.
+      destruct Hg as [<-|Hg]; [rewrite Eg in Hgrp; inversion Hgrp; subst; exact Eb|].
+      apply (IH r eq_refl g offs Hg Hgrp).
+    - destruct Hg as [<-|Hg]; [rewrite Eg in Hgrp; discriminate|]. apply (IH batches H g offs Hg Hgrp).
+  Qed.
+
+  Lemma tpf_total : forall (all : list frag),
+    (forall f offs, In f all -> grp f = Some offs -> forallb (in_phys f) offs = true) ->
+    exists batches, take_per_fragment all G = Ok batches /\
+                    (batches = [] -> forall f, In f all -> grp f = None).
+  Proof.
+    induction all as [|f more IH]; intro Hb.
+    - exists []. split; [reflexivity|]. intros _ f [].
+    - destruct IH as [r [Er Hr]]; [intros g offs Hg; apply Hb; right; exact Hg|].
+      rewrite tpf_cons. destruct (grp f) as [offs|] eqn:Eg.
+      + unfold take_in_frag. rewrite (Hb f offs (or_introl eq_refl) Eg), Er.
+        eexists. split; [reflexivity|]. intro C. discriminate C.
+      + exists r. split; [exact Er|]. intros C g [<-|Hg]; [exact Eg | apply Hr; assumption].
+  Qed.
+
+  Lemma tpf_nodup : forall (all : list frag) (batches : list (list N)),
+    take_per_fragment all G = Ok batches ->
+    NoDup (map f_id all) -> (forall f, In f all -> f_id f < two32) ->
+    (forall f offs, In f all -> grp f = Some offs -> NoDup offs /\ (forall o, In o offs -> o < two32)) ->
+    NoDup (concat batches).
+  Proof.
+    induction all as [|f more IH]; intros batches H ND Hid Hoffs.
+    - cbn in H. inversion H; subst. constructor.
+    - cbn [map] in ND. inversion ND as [|? ? Hna ND']; subst.
+      assert (forall r, take_per_fragment more G = Ok r -> NoDup (concat r)) as IH'.
+      { intros r Er. apply (IH r Er ND'); [intros g Hg; apply Hid; right; exact Hg|].
+        intros g offs Hg. apply Hoffs. right. exact Hg. }
+      pose proof H as H0. rewrite tpf_cons in H. destruct (grp f) as [offs|] eqn:Eg; [|apply IH'; exact H].
+      unfold take_in_frag in H. destruct (forallb (in_phys f) offs); [|discriminate H].
+      destruct (take_per_fragment more G) as [r| |] eqn:Er; try discriminate H. inversion H; subst.
+      destruct (Hoffs f offs (or_introl eq_refl) Eg) as [NDo Hsmall].
+      pose proof (Hid f (or_introl eq_refl)) as Hidf.
+      cbn [concat]. apply NoDup_app_intro; [| apply IH'; reflexivity |].
+      + apply NoDup_map_inj_in; [|apply NoDup_filter; exact NDo].
+        intros x y Hx Hy E. apply filter_In in Hx. apply filter_In in Hy.
+        rewrite !mk_addr_join in E by exact Hidf.
+        rewrite <- (addr_off_join (f_id f) x), <- (addr_off_join (f_id f) y), E; try reflexivity; apply Hsmall; tauto.
+      + intros x Hx Hx'. apply in_map_iff in Hx. destruct Hx as [o [Ex Ho]]. apply filter_In in Ho.
+        apply (tpf_ok_in more r Er x) in Hx'. destruct Hx' as [g [offs' [o' [Hg [Hgrp [Ho' [_ Ex']]]]]]].
+        apply Hna. replace (f_id f) with (f_id g); [apply in_map; exact Hg|].
+        rewrite <- Ex in Ex'. rewrite !mk_addr_join in Ex' by (try exact Hidf; apply Hid; right; exact Hg).
+        rewrite <- (addr_frag_join (f_id g) o'), <- Ex', addr_frag_join; try reflexivity.
+        * apply Hsmall. tauto.
+        * destruct (Hoffs g offs' (or_intror Hg) Hgrp) as [_ Hs]. apply Hs. exact Ho'.
+  Qed.
+End PerFragment.
+
+Lemma NoDup_app_l {A} (l1 l2 : list A) : NoDup (l1 ++ l2) -> NoDup l1.
+Proof.
+  induction l1 as [|a l1 IH]; intro H; [constructor|]. cbn [app] in H. inversion H as [|? ? Hna H']; subst.
+  constructor; [|apply IH; exact H']. intro C. apply Hna. apply in_or_app. left. exact C.
+Qed.
+
+Lemma NoDup_app_r {A} (l1 l2 : list A) : NoDup (l1 ++ l2) -> NoDup l2.
+Proof. induction l1 as [|a l1 IH]; intro H; [exact H|]. cbn [app] in H. inversion H; subst. apply IH. assumption. Qed.
+
+Lemma NoDup_flat_map_in {A B} (h : A -> list B) (l : list A) (x : A) : NoDup (flat_map h l) -> In x l -> NoDup (h x).
+Proof.
+  induction l as [|y l IH]; intros ND Hin; [destruct Hin|]. cbn [flat_map] in ND.
+  destruct Hin as [->|Hin]; [apply NoDup_app_l in ND; exact ND|]. apply IH; [apply NoDup_app_r in ND; exact ND | exact Hin].
+Qed.
+
+Lemma existsb_eqb_iff (a : N) (l : list N) : existsb (N.eqb a) l = true <-> In a l.
+Proof. exact (dv_contains_In l a). Qed.
+
+Lemma filter_all {A} (p : A -> bool) (l : list A) : (forall x, In x l -> p x = true) -> filter p l = l.
+Proof.
+  induction l as [|x xs IH]; intro H; [reflexivity|]. cbn [filter]. rewrite (H x (or_introl eq_refl)).
+  f_equal. apply IH. intros y Hy. apply H. right. exact Hy.
+Qed.
+
+(* ---- the re-mapping ("slow") path ---- *)
+Definition slow_path (frs : list frag) (row_addrs : list N) : outcome (list N) :=
+  let sorted_row_addrs := dedup_adj (sort_by (fun a => a) row_addrs) in
+  match take_per_fragment frs (group_runs sorted_row_addrs) with
+  | Err => Err
+  | Panic => Panic
+  | Ok batches =>
+    match batches with
+    | [] => Panic
+    | _ =>
+      let returned := concat batches in
+      let remapped := filter (fun o => existsb (N.eqb o) returned) row_addrs in
+      if N.of_nat (length remapped) <? N.of_nat (length returned) then Panic else Ok remapped
+    end
+  end.
+
+Definition batch_of (frs : list frag) (start : N) (row_addrs : list N) (sorted contiguous : bool) : outcome (list N) :=
+  if contiguous then
+    match find_frag frs (addr_frag start) with
+    | None => Err
+    | Some f => outcome_map (map (mk_addr (f_id f)))
+                  (frag_read_range f (addr_off start) (addr_off (last row_addrs 0) + 1))
+    end
+  else if sorted then take_groups frs (group_runs row_addrs)
+  else slow_path frs row_addrs.
+
+Lemma do_take_rows_unfold (frs : list frag) (start : N) (rest : list N) (wra : bool) :
+  do_take_rows frs (start :: rest) wra =
+    match check_row_addrs (start :: rest) with
+    | Err => Err
+    | Panic => Panic
+    | Ok (sorted, contiguous) =>
+      match batch_of frs start (start :: rest) sorted contiguous with
+      | Ok rows => if wra && negb (N.of_nat (length rows) =? N.of_nat (length (start :: rest))) then Err else Ok rows
+      | Err => Err
+      | Panic => Panic
+      end
+    end.
+Proof. reflexivity. Qed.
+
+Section SlowPath.
+  Variable frs : list frag.
+  Hypothesis Hwf : Forall frag_wfP frs.
+  Hypothesis Hnd : ids_nodup frs.
+  Variable addrs : list N.
+  Let S := dedup_adj (sort_by (fun a => a) addrs).
+  Let G := group_runs S.
+
+  Lemma S_in (a : N) : In a S <-> In a addrs.
+  Proof.
+    unfold S. rewrite dedup_adj_in. split; intro H.
+    - apply (Permutation_in _ (sort_by_perm (fun a => a) addrs)). exact H.
+    - apply (Permutation_in _ (Permutation_sym (sort_by_perm (fun a => a) addrs))). exact H.
+  Qed.
+
+  Lemma S_sorted : StronglySorted N.lt S.
+  Proof.
+    unfold S. apply dedup_adj_sorted.
+    pose proof (StronglySorted_map_le (fun a => a) _ (sort_by_sorted (fun a => a) addrs)) as H.
+    rewrite map_id in H. exact H.
+  Qed.
+
+  Lemma G_keys_nodup : NoDup (map fst G).
+  Proof. apply StronglySorted_lt_NoDup. apply group_runs_keys_sorted. apply addr_frag_mono. exact S_sorted. Qed.
+
+  Lemma wf_in (f : frag) : In f frs -> frag_wfP f.
+  Proof. intro H. rewrite Forall_forall in Hwf. apply Hwf. exact H. Qed.
+
+  Lemma grp_in (f : frag) (offs : list N) : In f frs -> grp G f = Some offs -> In (f_id f, offs) G.
+  Proof.
+    intros Hf H. unfold grp in H. rewrite wrap32_small in H by (pose proof (wf_id f (wf_in f Hf)); lia).
+    apply lookup_idx_some. exact H.
+  Qed.
+
+  Lemma grp_complete (a : N) (f : frag) : In a addrs -> find_frag frs (addr_frag a) = Some f ->
+    exists offs, grp G f = Some offs /\ In (addr_off a) offs.
+  Proof.
+    intros Ha Hf. destruct (found_wf frs Hwf _ _ Hf) as [W Hid].
+    destruct (group_runs_has S a (proj2 (S_in a) Ha)) as [offs [Hg Ho]]. exists offs. split; [|exact Ho].
+    unfold grp. rewrite wrap32_small by (pose proof (wf_id f W); lia). rewrite Hid.
+    apply lookup_idx_in; [exact G_keys_nodup | exact Hg].
+  Qed.
+
+  (* an address produced by a fragment's group is a requested, physically present slot *)
+  Lemma grp_member (f : frag) (offs : list N) (o : N) : In f frs -> grp G f = Some offs -> In o offs ->
+    o < two32 /\ In (mk_addr (f_id f) o) addrs /\ addr_frag (mk_addr (f_id f) o) = f_id f /\
+    addr_off (mk_addr (f_id f) o) = o /\ find_frag frs (f_id f) = Some f.
+  Proof.
+    intros Hf Hg Ho. pose proof (grp_in f offs Hf Hg) as HG.
+    pose proof (group_runs_offs_small S _ _ _ HG Ho) as Hsmall.
+    pose proof (wf_id f (wf_in f Hf)) as Hid.
+    rewrite mk_addr_join by lia. repeat split.
+    - exact Hsmall.
+    - apply S_in. apply (group_runs_in S _ _ _ HG Ho).
+    - apply addr_frag_join. exact Hsmall.
+    - apply addr_off_join. exact Hsmall.
+    - apply find_frag_nodup; assumption.
+  Qed.
+
+  Lemma slow_returned_iff (batches : list (list N)) (a : N) :
+    take_per_fragment frs G = Ok batches -> In a addrs ->
+    (In a (concat batches) <-> addr_live frs a = true).
+  Proof.
+    intros Hb Ha. rewrite (tpf_ok_in G frs batches Hb a). split.
+    - intros [f [offs [o [Hf [Hg [Ho [Hl ->]]]]]]].
+      destruct (grp_member f offs o Hf Hg Ho) as [_ [_ [E1 [E2 E3]]]].
+      pose proof (tpf_ok_bounds G frs batches Hb f offs Hf Hg) as Hb'. rewrite forallb_forall in Hb'. specialize (Hb' o Ho).
+      unfold addr_live. rewrite E1, E3, E2. unfold in_phys in Hb'. rewrite Hb', Hl. reflexivity.
+    - intro Hl. unfold addr_live in Hl. destruct (find_frag frs (addr_frag a)) as [f|] eqn:F; [|discriminate Hl].
+      apply andb_true_iff in Hl. destruct Hl as [_ Hl].
+      destruct (grp_complete a f Ha F) as [offs [Hg Ho]].
+      exists f, offs, (addr_off a). repeat split; try assumption.
+      + apply (find_frag_some _ _ _ F).
+      + symmetry. apply (found_addr frs Hwf a f F).
+  Qed.
+
+  Lemma slow_path_sound (l : list N) : slow_path frs addrs = Ok l -> l = filter (addr_live frs) addrs.
+  Proof.
+    unfold slow_path. fold S. fold G. destruct (take_per_fragment frs G) as [batches| |] eqn:Hb; try discriminate.
+    destruct batches as [|b bs]; [discriminate|].
+    destruct (N.of_nat (length (filter (fun o => existsb (N.eqb o) (concat (b :: bs))) addrs)) <? N.of_nat (length (concat (b :: bs))));
+      [discriminate|].
+    intro H. inversion H; subst. apply filter_ext_in. intros a Ha.
+    pose proof (slow_returned_iff (b :: bs) a Hb Ha) as I. rewrite <- existsb_eqb_iff in I.
+    destruct (existsb (N.eqb a) (concat (b :: bs))); destruct (addr_live frs a); try reflexivity.
+    - destruct I as [I _]. specialize (I eq_refl). discriminate I.
+    - destruct I as [_ I]. specialize (I eq_refl). discriminate I.
+  Qed.
+
+  (* totality: every requested address is a physical slot or belongs to no fragment at all, and at
+     least one belongs to a fragment *)
+  Lemma slow_path_total :
+    (forall a, In a addrs -> addr_in_bounds frs a = true \/ find_frag frs (addr_frag a) = None) ->
+    (exists a, In a addrs /\ addr_in_bounds frs a = true) ->
+    slow_path frs addrs = Ok (filter (addr_live frs) addrs).
+  Proof.
+    intros Hall [a0 [Ha0 Hb0]].
+    destruct (tpf_total G frs) as [batches [Hb Hempty]].
+    { intros f offs Hf Hg. apply forallb_forall. intros o Ho.
+      destruct (grp_member f offs o Hf Hg Ho) as [_ [Hin [E1 [E2 E3]]]].
+      destruct (Hall _ Hin) as [B|B].
+      - unfold addr_in_bounds in B. rewrite E1, E3, E2 in B. exact B.
+      - rewrite E1, E3 in B. discriminate B. }
+    assert (slow_path frs addrs = Ok (filter (fun o => existsb (N.eqb o) (concat batches)) addrs)) as E.
+    { unfold slow_path. fold S. fold G. rewrite Hb. destruct batches as [|b bs].
+      - exfalso. unfold addr_in_bounds in Hb0. destruct (find_frag frs (addr_frag a0)) as [f|] eqn:F; [|discriminate Hb0].
+        destruct (grp_complete a0 f Ha0 F) as [offs [Hg _]].
+        rewrite (Hempty eq_refl f (proj1 (find_frag_some _ _ _ F))) in Hg. discriminate Hg.
+      - set (R := concat (b :: bs)) in *.
+        assert (length R <= length (filter (fun o => existsb (N.eqb o) R) addrs))%nat as Hlen.
+        { apply NoDup_incl_length.
+          - apply (tpf_nodup G frs (b :: bs) Hb Hnd).
+            + intros f Hf. pose proof (wf_id f (wf_in f Hf)). lia.
+            + intros f offs Hf Hg. split.
+              * pose proof (grp_in f offs Hf Hg) as HG.
+                pose proof (NoDup_flat_map_in ungroup G (f_id f, offs)) as ND.
+                unfold G in ND at 1. rewrite group_runs_flat in ND. specialize (ND (StronglySorted_lt_NoDup S S_sorted) HG).
+                unfold ungroup in ND. cbn [fst snd] in ND. apply NoDup_map_inv in ND. exact ND.
+              * intros o Ho. apply (grp_member f offs o Hf Hg Ho).
+          - intros x Hx. apply filter_In. split; [|apply existsb_eqb_iff; exact Hx].
+            apply (tpf_ok_in G frs (b :: bs) Hb x) in Hx. destruct Hx as [f [offs [o [Hf [Hg [Ho [_ ->]]]]]]].
+            apply (grp_member f offs o Hf Hg Ho). }
+        destruct (N.ltb_spec (N.of_nat (length (filter (fun o => existsb (N.eqb o) R) addrs))) (N.of_nat (length R))); [lia|].
+        reflexivity. }
+    rewrite E. f_equal. symmetry. apply slow_path_sound. exact E.
+  Qed.
+End SlowPath.
